@@ -174,3 +174,11 @@ Definition check_ctx (c : ctx_case) : bool :=
   | _, _ => false
   end.
 Definition model_ctx (c : ctx_case) : res ctx := from_serialize (k_val c).
+
+(* ------------------------------------------------------------------ family reser *)
+
+(* Value::try_from_serializable(&value) for an arbitrary Value *)
+Record reser_case := { r_val : value; r_impl : res value }.
+Definition model_reser (c : reser_case) : res value :=
+  match reser (r_val c) with ROk y => ROk (canon y) | RErr e => RErr e end.
+Definition check_reser (c : reser_case) : bool := res_eqb value_eqb_syn (model_reser c) (r_impl c).
